@@ -1005,6 +1005,8 @@ public:
 private:
 
   results_map_t m_results;  
+  // facts at the exit of each block (start of the per-statement replay)
+  results_map_t m_out_results;
   assertion_crawler_op_t m_assert_crawler_op;
 
   // used by inter_assertion_crawler
@@ -1034,6 +1036,9 @@ public:
     for (auto p : boost::make_iterator_range(this->in_begin(), this->in_end())) {
       m_results.insert(std::make_pair(p.first, p.second));
     }
+    for (auto p : boost::make_iterator_range(this->out_begin(), this->out_end())) {
+      m_out_results.insert(std::make_pair(p.first, p.second));
+    }
     this->release_memory();
   }
 
@@ -1051,9 +1056,12 @@ public:
   void get_results(
       const basic_block_label_t &b,
       std::map<typename CFG::statement_t *, assert_map_domain_t> &res) const {
-    auto it = m_results.find(b);
-    if (it != m_results.end()) {
-      if (!it->second.get_first().is_bottom()) {
+    // the backward replay of the statements starts from the facts at
+    // the EXIT of the block
+    auto it = m_out_results.find(b);
+    auto in_it = m_results.find(b);
+    if (it != m_out_results.end() && in_it != m_results.end()) {
+      if (!in_it->second.get_first().is_bottom()) {
         auto &bb = this->m_cfg.get_node(b);
         typename assertion_crawler_op_t::transfer_function vis
 	  (it->second /* OUT dataflow facts */,
